@@ -983,6 +983,9 @@ def _run(ctx, which):
     def plain(c):
         if c['env'] == 'only-the-import-is-threaded' and c['kind'] in ('timeout', 'base') and c['position'] == 'first':
             return True                 # (every tracer style: the trace function is per thread, and two threads are involved)
+        if c['env'] in ('in-a-later-section', 'after-the-sections-were-stopped') and c['mode'].startswith('SyntaxError-raised') and c['tracer'] == 'none' \
+                and not c['threaded'] and c['position'] == 'first' and c['entry'] in ('run', 'call'):
+            return True                 # (errors that name a line themselves, where the file's lines are shifted: always, not by the luck of the sample)
         if c['env'] == 'only-the-import-is-threaded+outer-trace' and c['mode'] in ('ok-print', 'ok-silent', 'ZeroDivisionError', 'timeout-busy-loop', 'base-KeyboardInterrupt', 'exit-sys-exit'):
             return True
         if c['kind'] == 'timeout':      # time limits exist only in threaded executions: every history position, plain configuration
